@@ -11,14 +11,15 @@ import (
 // the canonical schedule runs a goroutine until it blocks or finishes and then
 // resumes the lowest-numbered runnable one.
 type G struct {
-	id     int
-	wake   chan struct{}
-	exited chan struct{}
-	done   bool
-	canRun func() bool
-	what   string
-	held   []*Value // mutexes held (lockset)
-	rheld  []*Value // RWMutexes held for reading (protect reads only)
+	id      int
+	wake    chan struct{}
+	exited  chan struct{}
+	done    bool
+	canRun  func() bool
+	what    string
+	held    []*Value // mutexes held (lockset)
+	rheld   []*Value // RWMutexes held for reading (protect reads only)
+	harness bool     // started by vf.Go
 }
 
 type mutexSt struct {
@@ -162,7 +163,7 @@ func (ex *Exec) spawn(fr *frame, fn Value, args []Value) {
 		ex.trSpawn(fn, args)
 		return
 	}
-	g := &G{id: len(ex.gs), wake: make(chan struct{}, 1), exited: make(chan struct{})}
+	g := &G{id: len(ex.gs), wake: make(chan struct{}, 1), exited: make(chan struct{}), harness: ex.spawningHarness}
 	ex.gs = append(ex.gs, g)
 	go func() {
 		defer close(g.exited)
@@ -363,8 +364,8 @@ func (ex *Exec) rwLock(p *Value) {
 	if p == nil {
 		ex.rtPanic("invalid memory address or nil pointer dereference")
 	}
-	if ex.tr != nil && ex.trOn() {
-		ex.abort("sync.RWMutex in traced (model-checked) code is not modelled")
+	if ex.tr != nil && ex.trOn() && ex.trLock(p) {
+		return
 	}
 	ex.yieldPoint()
 	st := ex.mutexOf(p)
@@ -378,8 +379,8 @@ func (ex *Exec) rwRLock(p *Value) {
 	if p == nil {
 		ex.rtPanic("invalid memory address or nil pointer dereference")
 	}
-	if ex.tr != nil && ex.trOn() {
-		ex.abort("sync.RWMutex in traced (model-checked) code is not modelled")
+	if ex.tr != nil && ex.trOn() && ex.trRLock(p) {
+		return
 	}
 	ex.yieldPoint()
 	st := ex.mutexOf(p)
@@ -391,6 +392,9 @@ func (ex *Exec) rwRLock(p *Value) {
 func (ex *Exec) rwRUnlock(p *Value) {
 	if p == nil {
 		ex.rtPanic("invalid memory address or nil pointer dereference")
+	}
+	if ex.tr != nil && ex.trOn() && ex.trRUnlock(p) {
+		return
 	}
 	st := ex.mutexOf(p)
 	if st.readers == 0 {
